@@ -129,6 +129,7 @@ class C11RoundTrip(Machine):
         else:
             trig = {"type": "bool", "global": glob}
         return {"tag": self.next_tag, "np": rng.randint(1, 4), "rays": rays, "trig": trig,
+                "share_paths": rng.chance(0.2),
                 "thrown": rng.randint(1, 5), "tree": rng.pick(["roots", "chain"]),
                 "reset_noise": rng.chance(0.3)}
 
